@@ -427,6 +427,25 @@ impl Model {
         acc
     }
 
+    /// hash of everything an arena's `==` must be able to tell apart at the level of the model:
+    /// which slots are live, the five links and the payload of every live node
+    pub fn state_fingerprint(&self) -> u64 {
+        let mut acc = self.slot_cur.len() as u64;
+        for (slot, c) in self.slot_cur.iter().enumerate() {
+            let live = c.map_or(false, |h| self.is_live(h));
+            acc = crate::rng::mix2(acc, (slot as u64) << 1 | live as u64);
+            if let (true, Some(h)) = (live, *c) {
+                let l = self.links(h);
+                for x in [l.parent, l.prev, l.next, l.first, l.last] {
+                    acc = crate::rng::mix2(acc, x.map_or(u64::MAX, |y| self.nodes[y].slot as u64));
+                }
+                acc = crate::rng::mix2(acc, self.nodes[h].tid);
+                acc = crate::rng::mix2(acc, self.nodes[h].val);
+            }
+        }
+        acc
+    }
+
     /// compact textual rendering of the forest, e.g. `[0(1 2(3))] [4 5]`
     pub fn render(&self) -> String {
         fn rec(m: &Model, h: H, out: &mut String) {
